@@ -37,6 +37,8 @@ def cases(tier, seed):
         yield {"fam": "fragments", "i": i}
     for i in range(500 if tier == "quick" else 10000):
         yield {"fam": "rand", "i": i}
+    for i in range(12 if tier == "quick" else 96):
+        yield {"fam": "tails", "i": i}
 
 
 def setup(ctx):
@@ -81,6 +83,34 @@ def run(case, ctx):
     from panoptica.utils.processing_pair import UnmatchedInstancePair
 
     fam, i = case["fam"], case["i"]
+    if fam == "tails":
+        # fragments with far-away tails, in small volumes and in volumes beyond 2^18 / 2^20 voxels: the union has to be
+        # scored with every voxel of every merged fragment, wherever it lies
+        r = gen.rng(ctx.seed, "c14tails", i)
+        n = int([4000, 2**18 + 5, 2**20 + 11, 2**20 + 3, 3000, 2**21 + 1][i % 6])
+        shape = (n,) if i % 2 == 0 else (3, n // 3 + 1)
+        refa = np.zeros(shape, dtype=np.uint8)
+        pred = np.zeros(shape, dtype=np.uint8)
+        fr, fp = refa.reshape(-1), pred.reshape(-1)
+        c = 1000
+        T, b, tb = [(40, 2, 12), (40, 2, 8), (30, 3, 20), (60, 1, 9)][(i // 2) % 4]
+        fr[c : c + 20] = 1
+        fp[c : c + 12] = 1
+        fp[10 : 10 + T] = 1  # tail of the first fragment, far before the reference
+        fp[c + 12 : c + 12 + b] = 2
+        fp[fr.size - 50 - tb : fr.size - 50] = 2  # tail of the second fragment, at the far end
+        if i % 3 == 0:
+            fp[c + 15 : c + 20] = 3  # a third fragment without tail
+        ctx.count("f:C14.fragments_with_far_tails")
+        for metric, thr in (("IOU", 0.1), ("DSC", 0.15), ("IOU", 0.02)):
+            ctx.count("evaluations")
+            try:
+                with pan.quiet():
+                    pan.make_matcher({"kind": "merge", "metric": metric, "thr": thr}).match_instances(UnmatchedInstancePair(pred.copy(), refa.copy()))
+            except Exception:  # noqa: BLE001  (recorded by the monitor)
+                pass
+        ctx.nontrivial("tails", i)
+        return
     if fam in TINY:
         shape, alpha, _ = TINY[fam]
         pred, refa = gen.tiny_pair(shape, alpha, i)
